@@ -308,7 +308,7 @@ def hs_check(pid, tier, seed, work, fam_specs, mc=True, mutants=()):
 def c01(tier, seed, work):
     fams = [dict(name="c01-honest", family="honest", tier=tier, seed=seed),
             dict(name="c01-retry", family="retry", tier=tier, seed=seed),
-            dict(name="c01-rekey", family="rekey", tier=tier, seed=seed, opts={"reuseCreds": True})]
+            dict(name="c01-rekey", family="rekey", tier=tier, seed=seed)]
     if tier != "quick":
         fams.append(dict(name="c01-honest-exact", family="honest", tier="quick", seed=seed + 1, opts={"exact": True}))
         fams.append(dict(name="c01-honest-s2", family="honest", tier="quick", seed=seed + 2))
@@ -328,7 +328,7 @@ def c01(tier, seed, work):
 def c02(tier, seed, work):
     fams = [dict(name="c02-mutate", family="mutate", tier=tier, seed=seed),
             dict(name="c02-mutate-exact", family="mutate", tier=tier, seed=seed, opts={"exact": True}),
-            dict(name="c02-rekey", family="rekey", tier=tier, seed=seed, opts={"reuseCreds": True})]
+            dict(name="c02-rekey", family="rekey", tier=tier, seed=seed)]
     muts = [("Mutant_Handshake_CheckRakp2.cfg", "C02_IncorrectPassword"), ("Mutant_Handshake_CheckStatus.cfg", "C02_OnlyIfAuthentic"),
             ("Mutant_Handshake_CheckTag.cfg", "C02_OnlyIfAuthentic")]
     return hs_check("C02", tier, seed, work, fams, mutants=muts if tier != "quick" else ())
